@@ -5,6 +5,7 @@ Round-trip lemmas for the TBSCertificate model: `parseTbs` and `marshalTbs` are 
 TBSCertificates; the list surgery of `removeExtension` / `BuildPrecertTBS`; preservation of `wf`.
 -/
 set_option linter.unusedSimpArgs false
+set_option linter.unusedVariables false
 namespace CTV.Tbs
 
 /-! ### one extension -/
